@@ -91,16 +91,23 @@ theorem C05_models_sequence (e : Node) (rest : List Node) :
   simp [decoupleVModels, List.filterMap_cons]
   split <;> simp
 
-/-- `[x, 'name']` becomes `v-model:name={[x]}` and `[x]` becomes `v-model={[x]}` -/
+/-- every entry becomes the `v-model` attribute with the same array as its value: `[x]` becomes `v-model={[x]}` ... -/
 theorem C05_models_entry_plain (x : Node) (as1 as2 as3 : List String) :
     decoupleVModels [.mk .arg as1 [.mk .array as2 [.mk .list as3 [nArg x]]]]
       = [.mk .jsxAttr [] [nIdentName "v-model", .mk .jsxExprContainer [] [nArray [nArg x]]]] := by
   simp [decoupleVModels, nArg]
 
-theorem C05_models_entry_named (x : Node) (name : String) (as1 as2 as3 : List String) :
-    decoupleVModels [.mk .arg as1 [.mk .array as2 [.mk .list as3 [nArg x, nArg (nStr name)]]]]
-      = [.mk .jsxAttr [] [.mk .jsxNsName [] [nIdentName "v-model", nIdentName name],
-          .mk .jsxExprContainer [] [nArray [nArg x]]]] := by
-  simp [decoupleVModels, nArg, nStr]
+/-- ... and `[x, 'name', ...]` becomes `v-model={[x, 'name', ...]}`: the argument stays a string in the array (whatever characters
+    it contains, `_` included) instead of becoming part of an attribute name that is split at `_`. -/
+theorem C05_models_entry_any (inner : List Node) (as1 as2 as3 : List String) :
+    decoupleVModels [.mk .arg as1 [.mk .array as2 [.mk .list as3 inner]]]
+      = [.mk .jsxAttr [] [nIdentName "v-model", .mk .jsxExprContainer [] [nArray inner]]] := by
+  simp [decoupleVModels]
+
+/-- a `v-models` entry `[x, 'my_arg']` on a component names the prop `my_arg` (all of it) -/
+theorem C05_models_entry_underscore (x : Node) (st : St) :
+    (parseVModel (.mk .jsxExprContainer [] [nArray [nArg x, nArg (nStr "my_arg")]]) true none [] st).1
+      = .vmodel (some (nStr "my_arg")) (some (nStr "my_arg")) none x := by
+  simp [parseVModel, containerExpr, nArray, nList, arrayElems, plainElem, nArg, nStr, transformModifiers]
 
 end VueJsx
